@@ -99,8 +99,9 @@ def _keys_for(sa):
         return None
 
 
-def _seal_raw(h, first, inner, integ_id, sk_a, sk_e, iv, geom=None, r=None):
-    """Reference SK sealing of arbitrary inner octets; geom damages the encrypted body itself."""
+def _seal_raw(h, first, inner, integ_id, sk_a, sk_e, iv, geom=None, r=None, outer=()):
+    """Reference SK sealing of arbitrary inner octets; geom damages the encrypted body itself; outer = cleartext payload dicts
+    placed in front of the SK payload (RFC 7296 only requires SK to be the last payload of the message)."""
     pad = (-(len(inner) + 1)) % 16
     pt = inner + b'\0' * pad + bytes([pad])
     if geom == 'badpad':
@@ -118,9 +119,10 @@ def _seal_raw(h, first, inner, integ_id, sk_a, sk_e, iv, geom=None, r=None):
     body = iv + ct + b'\0' * icv
     if geom == 'shorter_than_icv':
         body = b'\0' * r.randint(0, icv - 1)
-    total = 28 + 4 + len(body)
+    pre = R.enc_chain(list(outer), last_next=R.P_SK) if outer else b''
+    total = 28 + len(pre) + 4 + len(body)
     flags = (8 if h['I'] else 0) | (32 if h['R'] else 0)
-    msg = bytearray(R.enc_header(h['spi_i'], h['spi_r'], R.P_SK, h['exch'], flags, h['id'], total) +
+    msg = bytearray(R.enc_header(h['spi_i'], h['spi_r'], outer[0]['type'] if outer else R.P_SK, h['exch'], flags, h['id'], total) + pre +
                     struct.pack('>BBH', first, 0, 4 + len(body)) + body)
     if len(msg) >= icv and geom != 'shorter_than_icv':
         msg[-icv:] = R.integ(integ_id, sk_a, bytes(msg[:-icv]))
@@ -202,7 +204,14 @@ class Injector:
                     for _ in range(r.randint(1, 3)):
                         b[r.randrange(len(b))] = r.getrandbits(8)
                     inner = bytes(b)
-            return _seal_raw(h, first, inner, integ_id, sk_a, sk_e, iv)
+            outer = []
+            if r.random() < 0.2:
+                # cleartext payloads in front of the SK payload (hostile ones too)
+                outer = [hostile._payload(r) for _ in range(r.randint(1, 2))]
+            try:
+                return _seal_raw(h, first, inner, integ_id, sk_a, sk_e, iv, outer=outer)
+            except Exception:
+                return _seal_raw(h, first, inner, integ_id, sk_a, sk_e, iv)
         op = hostile.random_op(r, 0, node.name, kinds=(gen if gen != 'multi_flip' else 'flip',))
         data, _ = hostile.make(op, self.wire, dst, peer, meta['family'])
         if gen == 'multi_flip' and data:
